@@ -84,7 +84,7 @@ class Exec:
     def oblige(self, st, name, goal, kind="pre-of-callee", line=None):
         if self.quiet:
             return
-        self.ctx.oblige(f"{self.fname}/{kind}:{name}" + (f"@{line}" if line else ""), st.pc, goal, kind, line)
+        self.ctx.oblige(f"{self.fname}/{kind}:{name}" + (f"@{line}" if line else "") + f"~{st.pathid()}", st.pc, goal, kind, line)
 
     def name_term(self, v):
         if isinstance(v, NameV):
@@ -155,6 +155,13 @@ class Exec:
         raise Unsupported(f"truthiness of {v!r}")
 
     def card(self, v):
+        self.ctx.local_sink = self._cur.pc
+        try:
+            return self._card(v)
+        finally:
+            self.ctx.local_sink = None
+
+    def _card(self, v):
         if isinstance(v, Coll):
             if v.elems is not None and v.is_list:
                 return z3.IntVal(len(v.elems))
@@ -169,6 +176,10 @@ class Exec:
             return z3.IntVal(len(v))
         if isinstance(v, StrSet):
             return z3.IntVal(len(v.items))
+        if isinstance(v, ErrList):
+            c = self.ctx.fresh("nerr", z3.IntSort())
+            self._cur.pc.append(z3.And(c >= 0, (c > 0) == v.nonempty))
+            return c
         raise Unsupported(f"len of {v!r}")
 
     # ------------------------------------------------------------------ blocks / statements
@@ -186,6 +197,7 @@ class Exec:
 
     def stmt(self, s, st):
         self._cur = st
+        self._cur_line = getattr(s, "lineno", 0)
         if isinstance(s, ast.Expr):
             if isinstance(s.value, ast.Constant):
                 return [Out("normal", st)]  # docstring
@@ -242,8 +254,8 @@ class Exec:
                 elif z3.is_false(c):
                     res.extend(self.run_block(s.orelse, o.st))
                 else:
-                    res.extend(self.run_block(s.body, o.st.fork(c)))
-                    res.extend(self.run_block(s.orelse, o.st.fork(z3.Not(c))))
+                    res.extend(self.run_block(s.body, o.st.fork(c, mark=("if", s.lineno, 1))))
+                    res.extend(self.run_block(s.orelse, o.st.fork(z3.Not(c), mark=("if", s.lineno, 0))))
             return res
         if isinstance(s, ast.For):
             return self.for_loop(s, st)
@@ -432,7 +444,7 @@ class Exec:
                 free_inner = [v for v in _consts_of(local) if _is_fresh_iter(v) and not any(v.eq(sv) for sv in scope) and not _occurs(v, st.pc)]
                 closed = z3.Exists(free_inner, local) if free_inner else local
                 raise_conds.append(closed)
-                res.append(Out("raise", State(st.env, o.st.heap, st.pc + [cond, local]), None, o.exc))
+                res.append(Out("raise", State(st.env, o.st.heap, st.pc + [cond, local], o.st.trace), None, o.exc))
             elif o.kind in ("normal", "continue"):
                 if not _same_heap(o.st.heap, st1.heap) or not _same_env(o.st.env, st1.env, s):
                     raise Unsupported(f"loop #{ordinal} at line {s.lineno} has effects and no invariant was supplied")
@@ -495,21 +507,37 @@ class Exec:
             return ctx.fresh(nm, z3.IntSort())
         raise Unsupported(f"cannot havoc local {nm} = {v!r}")
 
+    @staticmethod
+    def _conj(f):
+        """an invariant may be given as one formula or as a list of named conjuncts (each becomes its own VC)"""
+        if isinstance(f, list):
+            return [(n, g) for n, g in f]
+        return [("", f)]
+
+    def _oblige_inv(self, st, lab, f, kind, line):
+        for n, g in self._conj(f):
+            self.oblige(st, lab + (":" + n if n else ""), g, kind, line)
+
+    def _assume_inv(self, st, f):
+        for _, g in self._conj(f):
+            st.pc.append(g)
+
     def invariant_for(self, s, st, it, ordinal, inv, mod_locals=(), mod_objs=(), label=None):
         """`for x in S: body` with invariant inv(ex, state, done:Coll) -> Bool (DESIGN 3.3)."""
         ctx = self.ctx
         lab = label or f"loop{ordinal}"
         objs = [st.env[o] if isinstance(o, str) else o for o in mod_objs]
         empty = Coll(lambda x: z3.BoolVal(False), elems=[], is_list=False)
-        self.oblige(st, lab, inv(self, st, empty), "inv-init", s.lineno)
+        self._oblige_inv(st, lab, inv(self, st, empty), "inv-init", s.lineno)
         sth = self.havoc(st, mod_locals, objs)
+        sth.trace = st.trace + (("for-step", s.lineno),)
         done = Coll.from_array(ctx.arr_nb("done"))
         val, cond, scope = self.iter_member(it, st)
         x = scope[0]
         y = ctx.fresh_name("dy")
         allmem = lambda t: z3.substitute(cond, (x, t))
         sth.pc.append(z3.ForAll([y], z3.Implies(done.mem(y), allmem(y))))
-        sth.pc.append(inv(self, sth, done))
+        self._assume_inv(sth, inv(self, sth, done))
         sth.pc.append(cond)
         sth.pc.append(z3.Not(done.mem(x)))
         self.assign(s.target, val, sth)
@@ -517,13 +545,14 @@ class Exec:
         done2 = Coll(lambda t, d=done, x=x: z3.Or(d.mem(t), t == x))
         for o in self.run_block(s.body, sth):
             if o.kind in ("normal", "continue"):
-                self.oblige(o.st, lab, inv(self, o.st, done2), "inv-step", s.lineno)
+                self._oblige_inv(o.st, lab, inv(self, o.st, done2), "inv-step", s.lineno)
             elif o.kind in ("raise", "return"):
                 res.append(o)
             else:
                 raise Unsupported(f"{o.kind} in loop #{ordinal} with invariant")
         ste = self.havoc(st, mod_locals, objs)
-        ste.pc.append(inv(self, ste, Coll(allmem)))
+        ste.trace = st.trace + (("for-exit", s.lineno),)
+        self._assume_inv(ste, inv(self, ste, Coll(allmem)))
         for nm in _assigned_names(s):
             if nm not in mod_locals:
                 ste.env.pop(nm, None)
@@ -533,10 +562,11 @@ class Exec:
     def invariant_while(self, s, st, ordinal, inv, mod_locals=(), mod_objs=(), label=None):
         lab = label or f"loop{ordinal}"
         objs = [st.env[o] if isinstance(o, str) else o for o in mod_objs]
-        self.oblige(st, lab, inv(self, st), "inv-init", s.lineno)
+        self._oblige_inv(st, lab, inv(self, st), "inv-init", s.lineno)
         res = []
         sth = self.havoc(st, mod_locals, objs)
-        sth.pc.append(inv(self, sth))
+        sth.trace = st.trace + (("while-step", s.lineno),)
+        self._assume_inv(sth, inv(self, sth))
         for c in self.expr_outs(s.test, sth):
             if c.kind != "value":
                 res.append(c)
@@ -544,13 +574,14 @@ class Exec:
             t = self.truthy(c.value)
             for o in self.run_block(s.body, c.st.fork(t)):
                 if o.kind in ("normal", "continue"):
-                    self.oblige(o.st, lab, inv(self, o.st), "inv-step", s.lineno)
+                    self._oblige_inv(o.st, lab, inv(self, o.st), "inv-step", s.lineno)
                 elif o.kind in ("raise", "return"):
                     res.append(o)
                 else:
                     raise Unsupported(f"{o.kind} in while loop #{ordinal}")
         ste = self.havoc(st, mod_locals, objs)
-        ste.pc.append(inv(self, ste))
+        ste.trace = st.trace + (("while-exit", s.lineno),)
+        self._assume_inv(ste, inv(self, ste))
         for c in self.expr_outs(s.test, ste):
             if c.kind != "value":
                 continue  # already reported from the step state
@@ -634,7 +665,16 @@ class Exec:
                 d = ft
         self._taken.append(d)
         st.pc.append(cond if d else z3.Not(cond))
+        line = getattr(self, "_cur_line", 0)
+        st.trace = st.trace + (("ch", line, self._choice_tag(cond), int(d)),)
         return d
+
+    def _choice_tag(self, cond):
+        # a coarse, run-independent fingerprint of the condition: its top-level operator names
+        try:
+            return cond.decl().name() + "/" + str(cond.num_args())
+        except Exception:
+            return "?"
 
     def split_raise(self, st, cond, exc):
         """the expression being evaluated raises `exc` when `cond` holds"""
@@ -747,6 +787,8 @@ class Exec:
                     return Opaque("fstring")
         if not holes:
             return StrLit(parts[0])
+        if any(" " in p_ or "\n" in p_ for p_ in parts):
+            return Opaque("message")  # text with blanks is an exception/log message, never a node name
         f = self.ctx.template(parts)
         return NameV(f(*holes))
 
@@ -762,14 +804,20 @@ class Exec:
         # python short-circuit: later operands are evaluated under the guard of the earlier ones
         is_or = isinstance(e.op, ast.Or)
         acc = []
+        guards = []
         guard_st = st
-        result = None
         for sub in e.values:
+            mark = len(guard_st.pc)
             v = self.ev(sub, guard_st)
             t = self.truthy(v)
+            if guard_st is not st:
+                # facts learned while evaluating a guarded operand (e.g. the element returned by .pop()) hold under
+                # the guard: keep them in the enclosing state in that conditional form
+                for f in guard_st.pc[mark:]:
+                    st.pc.append(z3.Implies(z3.And(guards), f))
             acc.append(t)
-            guard_st = guard_st.fork(z3.Not(t) if is_or else t)
-            result = v
+            guards.append(z3.Not(t) if is_or else t)
+            guard_st = guard_st.fork(guards[-1])
         return z3.Or(acc) if is_or else z3.And(acc)
 
     def compare(self, e, st):
@@ -810,6 +858,11 @@ class Exec:
         raise Unsupported(f"number expected, got {v!r}")
 
     def equal(self, l, r):
+        if isinstance(l, MaybeType) or isinstance(r, MaybeType):
+            m, o = (l, r) if isinstance(l, MaybeType) else (r, l)
+            if isinstance(o, NoneV):
+                return z3.Not(m.has)
+            return z3.And(m.has, m.term == self.type_term(o))
         if isinstance(l, (NameV, StrLit)) and isinstance(r, (NameV, StrLit)):
             if isinstance(l, StrLit) and isinstance(r, StrLit):
                 return z3.BoolVal(l.s == r.s)
@@ -863,6 +916,10 @@ class Exec:
         l = self.ev(e.left, st)
         r = self.ev(e.right, st)
         op = e.op
+        if isinstance(l, Opaque) or isinstance(r, Opaque):
+            return Opaque("text")
+        if isinstance(l, StrLit) and isinstance(r, StrLit) and isinstance(op, ast.Add):
+            return StrLit(l.s + r.s)
         if isinstance(op, ast.Add):
             if isinstance(l, StrSet) and isinstance(r, StrSet):
                 return StrSet(l.items + r.items)
@@ -928,6 +985,10 @@ class Exec:
 
     def subscript(self, e, st):
         base = self.ev(e.value, st)
+        if isinstance(base, ErrList):
+            return base
+        if isinstance(base, Opaque):
+            return Opaque("text")
         if isinstance(base, GraphNodesView):
             n = self.ev(e.slice, st)
             nt = self.name_term(n)
@@ -1136,6 +1197,13 @@ class Exec:
     def method(self, base, name, e, st):
         from pyvc import models
         return models.method(self, base, name, e, st)
+
+
+class MaybeType:
+    """result of attrs.get("type"): the type when the attribute exists, else None"""
+
+    def __init__(self, has, term):
+        self.has, self.term = has, term
 
 
 class CharV:
